@@ -69,8 +69,10 @@ Proof. reflexivity. Qed.
 Lemma own_update b y : gen_own_update_y_X base mem B_set_y B_set_cutoff b y = base_upd b y.
 Proof.
   unfold gen_own_update_y_X, gen_own_set_cutoff, base_upd. destruct y as [|p y]; [reflexivity|].
-  (* whatever way the source writes "the batch is not empty" *)
-  match goal with |- (if ?c then _ else _) = _ => replace c with true by (cbn [length]; lia) end.
+  (* whichever way the source writes "the batch is (not) empty": decide the test, the impossible
+     branch goes by arithmetic *)
+  match goal with |- context [if ?c then _ else _] =>
+    let E := fresh "E" in destruct c eqn:E; try (exfalso; cbn [length] in E; lia) end.
   reflexivity.
 Qed.
 
@@ -255,7 +257,8 @@ Section Bridge.
   Proof.
     unfold G_pipe_update, gen_pipe_update. cbv zeta. rewrite own_update.
     destruct y as [|p0 y0]; [reflexivity|].
-    match goal with |- (if ?c then _ else _) = _ => replace c with false by (cbn [length]; lia) end.
+    match goal with |- context [if ?c then _ else _] =>
+      let E := fresh "E" in destruct c eqn:E; try (exfalso; cbn [length] in E; lia) end.
     assert (Hy : p0 :: y0 <> []) by discriminate. revert Hy. generalize (p0 :: y0). intros y Hy.
     rewrite (update_pipe_nonempty leaf lpar lfit tr tpar tupd tapp thasupd reg rpar b ts f y up Hy).
     change (gen_iter_transformers leaf lpar tr tpar tfit tupd tapp tinv tskip thasupd reg rpar rfit rpred tstateT false ts) with ts.
